@@ -2,8 +2,8 @@
 # Each harness is a Go function in /verif/harness (package rapid) executed
 # symbolically by gosym against /repo's working tree.
 
-def H(name, bounds="", reach=(), native=True, thorough_only=False, quick=None, thorough=None, nodiff=False, opts=None, search=None, must_reach=None, unreach_job=None, race=False, search_any=False):
-    return {"name": name, "race": race, "search_any": search_any, "bounds": bounds, "reach": list(reach), "native": native,
+def H(name, bounds="", reach=(), native=True, thorough_only=False, quick=None, thorough=None, nodiff=False, opts=None, search=None, must_reach=None, unreach_job=None, race=False, search_any=False, sanity_reach=None):
+    return {"name": name, "race": race, "search_any": search_any, "sanity_reach": sanity_reach or [], "bounds": bounds, "reach": list(reach), "native": native,
             "thorough_only": thorough_only, "quick": quick or {}, "thorough": thorough or {},
             "nodiff": nodiff, "opts": opts or {}, "search": search or [], "must_reach": must_reach or [], "unreach_job": unreach_job}
 
@@ -75,7 +75,7 @@ PROPS = {
             H("H_C12_monotone", "all 12 kinds, any recording, bias word / data word lowered to any smaller value (64-bit symbolic)", reach=["compared"], quick=Q, thorough=T),
             H("H_C12_shape", "all 12 kinds on the real PRNG-backed recording stream with arbitrary PRNG output: overflow draws record all-ones; for every kind the solver synthesises a non-overflow bias word that keeps the extreme value (escape witness)", reach=["prng-overflow", "prng-plain"], must_reach=["escape-" + k for k in ["Int8", "Int16", "Int32", "Int64", "Int", "Uint8", "Uint16", "Uint32", "Uint64", "Uint", "Byte", "Uintptr"]], quick=Q, thorough=T, nodiff=True, search=["seed"]),
             H("H_C12_minimizeExact", "real minimize(u, cond): all u < 2^6 (quick) / 2^9 (thorough), every threshold condition x>=theta, and the never-true condition", reach=["threshold", "nothing-accepted"], quick=Q, thorough=T),
-            H("H_C05_accept", "completeness of accept (see C05 for the bounds): a strictly smaller candidate that fails at the same site is always taken, whatever its message", reach=["accepted", "rejected"], quick=Q, thorough=T),
+            H("H_C05_accept", "completeness of accept (see C05 for the bounds): a strictly smaller candidate that fails at the same site is always taken, whatever its message", reach=["accepted", "rejected"], sanity_reach=["accepted"], quick=Q, thorough=T),
             H("H_C12_binSearchInduct", "the binary search of the real minimizer at full 64-bit width by one inductive step (loop cut-point): any best, any threshold, any loop state inside the invariant i <= threshold <= j == best; variant j-i; exit => best == threshold", reach=["iterated", "returned", "loop-back-edge"], quick=Q, thorough=T, search=["best", "theta"], search_any=True),
             H("H_C12_binSearchStep", "minimizer.accept and the first probe of binSearch for all 64-bit best/u and both condition outcomes", reach=["accepted", "rejected", "probe"], quick=Q, thorough=T),
             H("H_C12_offers", "real shrink() on a 3-word recording in 2 standalone groups, words from 10 representatives (0,1,5,6,7,1000,2^53-1,2^63,2^64-2,2^64-1), property reproduced by no candidate; then a second shrink() of a neighbouring test case in the same process", reach=["first-run", "second-run"], quick=Q, thorough=T),
@@ -130,7 +130,7 @@ PROPS = {
         "level": "model_checking",
         "harnesses": [
             H("H_C01_checkTB", "real checkTB/doCheck/findBug/shrink/checkOnce on a deterministic symbolic program; quick: 3 opcodes over {return, draw bool, Errorf, Fatalf, data-dependent Fatalf, Skip, panic, draw from Bool().Filter}, checks=1, <=2 generated test cases, shrinktime in {0, 30s} with a ticking clock; thorough: 2 opcodes over the larger alphabet (+second fatal site, conditional opcode, SliceOfDistinct), checks in 1..2, <=4 generated cases, symbolic clock (deadline may fall between any two time.Now calls); PRNG words symbolic", reach=["reported", "not-failed"], quick=Q, thorough=T, search=["env.maphash"]),
-            H("H_C05_accept", "shrinker invariant, see C05", reach=["accepted", "rejected"], quick=Q, thorough=T),
+            H("H_C05_accept", "shrinker invariant, see C05", reach=["accepted", "rejected"], sanity_reach=["accepted"], quick=Q, thorough=T),
         ] + PRUNE,
         "assumptions": ENGINE_ASSUME + ["jsf64 with a symbolic seed abstracted to an arbitrary word sequence determined by the seed expression", "fail files disabled (-rapid.nofailfile); C06 covers what is written to the file",
                                         "the executor's fmt model renders %#v of a slice differently from package fmt: logged-draw comparison is made for bool draws only"],
@@ -193,7 +193,7 @@ PROPS = {
         "harnesses": [
             H("H_C05_compareData", "three buffers of 0..3 symbolic 64-bit words", reach=["compared", "equal"], quick=Q, thorough=T),
             H("H_C05_shrinkSteps", "the real shrink() with all its passes on a failing 5-word recording made of two same-label standalone groups of different length (payload words from 3 representatives, both orders), property failing at one site; every accepted candidate strictly smaller than its predecessor, result not larger than the input", reach=["accepted-step", "shrunk"], quick=Q, thorough=T),
-            H("H_C05_accept", "pre-state = recording of any failing run of a symbolic 3-opcode program (2 fatal sites, data-dependent site, non-fatal site, panic, skip) on any buffer of <=3 (quick) / <=4 (thorough) words; candidate = any buffer of <=3/<=4 words; one call of the real accept", reach=["accepted", "rejected"], quick=Q, thorough=T),
+            H("H_C05_accept", "pre-state = recording of any failing run of a symbolic 3-opcode program (2 fatal sites, data-dependent site, non-fatal site, panic, skip) on any buffer of <=3 (quick) / <=4 (thorough) words; candidate = any buffer of <=3/<=4 words; one call of the real accept", reach=["accepted", "rejected"], sanity_reach=["accepted"], quick=Q, thorough=T),
         ],
         "assumptions": ENGINE_ASSUME + ["dataStr (cache key of rejected candidates) is structural on symbolic words: a spurious cache miss re-runs the candidate with the same result"],
     },
